@@ -345,9 +345,8 @@ impl PartialEq for Object {
             Type::Null | Type::Bool | Type::Int | Type::Function => self.0 == other.0,
             Type::Float => unsafe { self.as_f64_unchecked() == other.as_f64_unchecked() },
             Type::String => unsafe { self.as_str_unchecked() == other.as_str_unchecked() },
-            Type::Array => {
-                unimplemented!("Can not yet compare objects of type array")
-            }
+            // Arrays are shared by reference, two arrays are equal if they are the same array
+            Type::Array => self.0 == other.0,
         }
     }
 }
@@ -364,12 +363,8 @@ impl PartialOrd for Object {
             Type::Int => self.as_int().partial_cmp(&other.as_int()),
             Type::Float => unsafe { self.as_f64_unchecked().partial_cmp(&other.as_f64()) },
             Type::String => unsafe { self.as_str_unchecked().partial_cmp(other.as_str()) },
-            Type::Array | Type::Function => {
-                unimplemented!(
-                    "kan objecten van type {} niet vergelijken of sorteren",
-                    self.tag()
-                )
-            }
+            // Arrays and functions have no ordering
+            Type::Array | Type::Function => None,
         }
     }
 }
@@ -424,6 +419,24 @@ macro_rules! impl_cmp {
     };
 }
 
+macro_rules! impl_ord {
+    ($func_name:ident, $op:tt) => {
+        #[inline(always)]
+        pub fn $func_name(self, rhs: Self, _gc: &mut GC) -> Result<Object, Error> {
+            if self.tag() != rhs.tag() {
+                return Err(Error::TypeError(format!("kan objecten met type {} en type {} niet vergelijken", self.tag(), rhs.tag())));
+            }
+
+            if matches!(self.tag(), Type::Array | Type::Function) {
+                return Err(Error::TypeError(format!("kan objecten van type {} niet sorteren", self.tag())));
+            }
+
+            // Delegate actual comparison to PartialOrd implementation
+            Ok(Object::bool(self $op rhs,))
+        }
+    };
+}
+
 impl Object {
     impl_arith!(add, +, checked_add);
     impl_arith!(sub, -, checked_sub);
@@ -431,10 +444,10 @@ impl Object {
     impl_arith!(div, /, checked_div);
     impl_arith!(rem, %, checked_rem);
 
-    impl_cmp!(gt, >);
-    impl_cmp!(gte, >=);
-    impl_cmp!(lt, <);
-    impl_cmp!(lte, <=);
+    impl_ord!(gt, >);
+    impl_ord!(gte, >=);
+    impl_ord!(lt, <);
+    impl_ord!(lte, <=);
     impl_cmp!(eq, ==);
     impl_cmp!(neq, !=);
 
